@@ -565,11 +565,30 @@ class Gen:
     def filter_cond(self, t, env, depth):
         c = self.i(0, 5)
         ps = [p for p in self.usable_ptrs(t, links=False) if not p.multi]
+        xo = [p for p in ps if p.exclusive and not p.required and not p.computed]
+        if xo and self.i(0, 5) == 0:
+            # optional exclusive pointer compared with ?= to something that can be empty
+            p = self.pick(xo)
+            cast = {'int': 'int64', 'str': 'str', 'bool': 'bool'}[p.target]
+            self.f('filter-exclusive')
+            self.f('opt-eq')
+            self.f('empty-set')
+            rhs = self.pick([f'<{cast}>{{}}', f'<{cast}>{{}}',
+                             f'(select {self.single_scalar(p.target, env, None, 0)} limit 0)'])
+            if self.i(0, 2) == 0 and len(ps) > 1:
+                other = self.pick([q for q in ps if q is not p])
+                return f'.{p.name} ?= {rhs} and .{other.name} ?= .{other.name}'
+            return f'.{p.name} ?= {rhs}'
         if c <= 2 and ps:
             p = self.pick(ps)
             if p.exclusive:
                 self.f('filter-exclusive')
             op = self.pick(['=', '=', '=', '!=', '?=']) if p.target != 'bool' else '='
+            if op == '?=' and self.i(0, 2) == 0:
+                cast = {'int': 'int64', 'str': 'str', 'bool': 'bool'}[p.target]
+                self.f('empty-set')
+                self.f('opt-eq')
+                return f'.{p.name} ?= <{cast}>{{}}'
             rhs = self.single_scalar(p.target, env, None, depth) if self.i(0, 1) else \
                 self.scalar(p.target, env, None, max(depth - 1, 0))
             return f'.{p.name} {op} {rhs}'
@@ -587,7 +606,17 @@ class Gen:
         return ('obj', t), f'({self.objset(t, env, prefix, depth)})'
 
     def anyset(self, env, prefix, depth, paren=False):
-        c = self.i(0, 2)
+        c = self.i(0, 3)
+        if c == 3:
+            # a union of two object sets of arbitrary (possibly overlapping) types
+            a, b = self.pick(list(self.info.types)), self.pick(list(self.info.types))
+            self.f('mixed-union')
+            d2 = max(depth - 1, 0)
+            if self.i(0, 1):
+                r = f'({self.objset(a, env, prefix, d2)} union {self.objset(b, env, prefix, d2)})'
+            else:
+                r = f'{{{self.objset(a, env, prefix, d2)}, {self.objset(b, env, prefix, d2)}}}'
+            return r
         if c == 0:
             r = self.scalar(self.pick(['int', 'str']), env, prefix, depth)
         else:
@@ -701,7 +730,7 @@ class Gen:
     def statement(self):
         """-> query text (one top-level statement)"""
         d = self.i(1, self.o.max_depth)
-        forms = ['select-obj', 'select-obj', 'select-obj', 'select-scalar', 'select-scalar']
+        forms = ['select-obj', 'select-obj', 'select-obj', 'select-scalar', 'select-scalar', 'select-any']
         if self.o.collections:
             forms += ['select-tuple', 'select-array']
         forms += ['for', 'with']
@@ -738,6 +767,8 @@ class Gen:
                 text += f' limit {self.i(0, 2)}'
                 self.f('limit')
             return text
+        if form == 'select-any':
+            return f'select {self.anyset(env, None, d, paren=True)}'
         if form == 'select-scalar':
             k = self.pick(['int', 'str', 'bool'])
             return f'select {self.scalar(k, env, None, d)}'
